@@ -1,7 +1,6 @@
 --------------------------- MODULE MC_Import ---------------------------
 EXTENDS Import, Json
-(* every behaviour of the bounded instance, exported when it cannot be extended (MaxSteps reached) or, for shorter ones,
-   at every state (prefixes are behaviours too: the harness drains and reads at the end of each) *)
+(* every behaviour of length MaxSteps of the bounded instance (the harness drains and reads at the end of each) *)
 BehaviourExport == (Len(hist) = MaxSteps) => PrintT(<<"BEH", ToJson([steps |-> hist])>>)
 (* Simulation: TLC picks uniformly among SUCCESSOR STATES; Feed / FeedBegin / Cache have one successor per captured event
    and would swamp the parameterless actions.  SimNext draws the event with RandomElement (biased to the newest two
